@@ -187,7 +187,7 @@ func cmdCheck(args []string) int {
 	}
 	// translator validation: run sampled path witnesses natively
 	nwit, nwitOK := 0, 0
-	if !*noReplay {
+	if !*noReplay && !prog.noWitness {
 		rw, _ := prog.nativeRewrites()
 		for _, r := range results {
 			var files []string
